@@ -55,16 +55,16 @@ func (f c08Filter) matches(l *eth.Log) bool {
 }
 
 type c08Env struct {
-	node    *sim.Node
-	url     string
-	refURL  string
-	cached  *jrpc2.Client
-	ref     *jrpc2.Client
-	mu      sync.Mutex
-	failNth map[int]bool // request sequence numbers (cached node only) to fail
-	failKind int        // 0: HTTP 503; 1..: a response that fails the client's validation
-	seq     int
-	fetches map[string]int // successful block/header fetches per "kind:start" seen by the node
+	node     *sim.Node
+	url      string
+	refURL   string
+	cached   *jrpc2.Client
+	ref      *jrpc2.Client
+	mu       sync.Mutex
+	failNth  map[int]bool // request sequence numbers (cached node only) to fail
+	failKind int          // 0: HTTP 503; 1..: a response that fails the client's validation
+	seq      int
+	fetches  map[string]int // successful block/header fetches per "kind:start" seen by the node
 }
 
 func newC08Env(maxreads int) *c08Env {
